@@ -561,7 +561,7 @@ class C13(runner.Check):
             if k["class"] == "C" or k["name"] in RAW_FALLBACK:
                 # the definition-free kernels with many specialisations are the longest shards: split their input
                 # enumeration into disjoint residue classes and start them first
-                nparts = 8 if len(k["specializations"]) > 3 else 1
+                nparts = 8 if len(k["specializations"]) > 3 or k["name"] in self.quarantined_kernels() else 1
                 for part in range(nparts):
                     raw.append(("raw", tier, ki, part, nparts))
             if k["class"] != "C":
